@@ -1,9 +1,18 @@
 //! C01 — forward chaining fires iff the condition holds; assignments store the RHS value.
 //!
-//! case := `G<0|1> F<n> {<keyhex> VALUE}*n U<m> RULE*m [M<c>] [P<k> PHASE*k]`
+//! case := `G<0|1> F<n> {<keyhex> VALUE}*n U<m> RULE*m [M<c>] [V<bits>] [P<k> PHASE*k]`
 //!   M<c>  := EngineConfig::max_cycles (default 1)
-//!   PHASE := <p|w><n> {<keyhex> VALUE}*n   one more execute call on the SAME engine object, after the caller replaced
-//!            the listed top-level facts (`p`: in the same Facts object; `w`: in a new Facts object holding the same content)
+//!   V<bits> := twin ways of building the same engine / rules / facts (sum of): 1 engine from `RustRuleEngine::new` (default
+//!            configuration: max_cycles 100, M ignored), 2 rules added after construction through `knowledge_base()` /
+//!            `knowledge_base_mut()` (GRL stream: `add_rules_from_grl`), 4 analytics enabled, 8 facts stored through
+//!            `Facts::add` (serde) wherever the value survives the JSON round trip, 16 an undo frame is open around every
+//!            execute call (begin / commit), 32 the GRL stream parses the whole text with `parse_rules`, 64 rules built with
+//!            `Operator::from_str` (both spellings), `Value::from`, inert `with_*` builders
+//!   PHASE := <p|w|m|s|x><n> CALLEROP*n   one more execute call on the SAME engine object, after the caller edited the facts
+//!            (`p`: in the same Facts object; otherwise first moved into a new Facts object holding the same content: `w` by
+//!            add_value, `m` by merge, `s` by snapshot + restore, `x` by to_context + from_context)
+//!   CALLEROP := <keyhex> VALUE (add_value) | =<keyhex> VALUE (Facts::set) | @<pathhex> VALUE (Facts::set_nested, an Err is
+//!            ignored) | -<keyhex> (Facts::remove) | ! (Facts::clear)
 //!   VALUE := S<hex> | I<int> | N<f64 bits, 16 hex> | B0 | B1 | Z | X<hex> | A<n> VALUE*n | O<n> {<keyhex> VALUE}*n
 //!   RULE  := R<k> COND ACTION*k          ACTION := = <fieldhex> SRHS | ^ <fieldhex> SRHS
 //!   COND  := and COND COND | or COND COND | not COND | f <namehex> <op> SRHS | a SUM <cmp> ARHS
@@ -73,16 +82,32 @@ struct SRule {
     acts: Vec<Act>,
 }
 #[derive(Clone, Debug)]
-struct Phase {
-    fresh: bool,
-    sets: Vec<(String, Value)>,
+enum POp {
+    Add(String, Value),
+    Set(String, Value),
+    SetNested(String, Value),
+    Remove(String),
+    Clear,
 }
+#[derive(Clone, Debug)]
+struct Phase {
+    kind: char,
+    ops: Vec<POp>,
+}
+const V_NEW: u32 = 1;
+const V_LATE: u32 = 2;
+const V_ANALYTICS: u32 = 4;
+const V_SERDE: u32 = 8;
+const V_UNDO: u32 = 16;
+const V_WHOLE: u32 = 32;
+const V_BUILDERS: u32 = 64;
 #[derive(Clone, Debug)]
 struct Case {
     grl: bool,
     facts: Vec<(String, Value)>,
     rules: Vec<SRule>,
     max_cycles: usize,
+    variant: u32,
     phases: Vec<Phase>,
 }
 
@@ -284,13 +309,30 @@ fn ser_case(c: &Case) -> String {
     if c.max_cycles != 1 {
         out.push(format!("M{}", c.max_cycles));
     }
+    if c.variant != 0 {
+        out.push(format!("V{}", c.variant));
+    }
     if !c.phases.is_empty() {
         out.push(format!("P{}", c.phases.len()));
         for ph in &c.phases {
-            out.push(format!("{}{}", if ph.fresh { 'w' } else { 'p' }, ph.sets.len()));
-            for (k, v) in &ph.sets {
-                out.push(hex(k));
-                ser_value(v, &mut out);
+            out.push(format!("{}{}", ph.kind, ph.ops.len()));
+            for op in &ph.ops {
+                match op {
+                    POp::Add(k, v) => {
+                        out.push(hex(k));
+                        ser_value(v, &mut out);
+                    }
+                    POp::Set(k, v) => {
+                        out.push(format!("={}", hex(k)));
+                        ser_value(v, &mut out);
+                    }
+                    POp::SetNested(k, v) => {
+                        out.push(format!("@{}", hex(k)));
+                        ser_value(v, &mut out);
+                    }
+                    POp::Remove(k) => out.push(format!("-{}", hex(k))),
+                    POp::Clear => out.push("!".into()),
+                }
             }
         }
     }
@@ -436,44 +478,94 @@ fn parse_case(line: &str) -> Option<Case> {
     if p.t.get(p.i).map_or(false, |t| t.starts_with('M')) {
         max_cycles = p.count('M')?;
     }
+    let mut variant = 0u32;
+    if p.t.get(p.i).map_or(false, |t| t.starts_with('V')) {
+        variant = p.count('V')? as u32;
+    }
     let mut phases = Vec::new();
     if p.t.get(p.i).map_or(false, |t| t.starts_with('P')) {
         let k = p.count('P')?;
         for _ in 0..k {
             let t = p.next()?;
-            let fresh = match &t[..1] {
-                "w" => true,
-                "p" => false,
-                _ => return None,
-            };
-            let n: usize = t[1..].parse().ok()?;
-            let mut sets = Vec::new();
-            for _ in 0..n {
-                let k = unhex(p.next()?)?;
-                sets.push((k, p.value()?));
+            let kind = t.chars().next()?;
+            if !"pwmsx".contains(kind) {
+                return None;
             }
-            phases.push(Phase { fresh, sets });
+            let n: usize = t[1..].parse().ok()?;
+            let mut ops = Vec::new();
+            for _ in 0..n {
+                let t = p.next()?;
+                ops.push(match t.chars().next()? {
+                    '-' => POp::Remove(unhex(&t[1..])?),
+                    '!' => POp::Clear,
+                    '@' => POp::SetNested(unhex(&t[1..])?, p.value()?),
+                    '=' => POp::Set(unhex(&t[1..])?, p.value()?),
+                    _ => POp::Add(unhex(t)?, p.value()?),
+                });
+            }
+            phases.push(Phase { kind, ops });
         }
     }
     if p.i != p.t.len() {
         return None;
     }
-    Some(Case { grl, facts, rules, max_cycles, phases })
+    Some(Case { grl, facts, rules, max_cycles, variant, phases })
 }
 
 // ------------------------------------------------------------------ building rules as the parser does
-fn compile_rhs(r: &SRhs) -> Value {
+/// the same literal through the `From` conversions (`Value::from(5)`, `"abc".into()`)
+fn lit_from(v: &Value) -> Value {
+    match v {
+        Value::Integer(i) => Value::from(*i),
+        Value::Number(x) => Value::from(*x),
+        Value::Boolean(b) => Value::from(*b),
+        Value::String(s) if s.len() % 2 == 0 => Value::from(s.as_str()),
+        Value::String(s) => Value::from(s.clone()),
+        other => other.clone(),
+    }
+}
+fn compile_rhs(r: &SRhs, builders: bool) -> Value {
     match r {
+        SRhs::Lit(v) if builders => lit_from(v),
         SRhs::Lit(v) => v.clone(),
         SRhs::Expr(e) => Value::Expression(render_sum(e)),
     }
 }
-fn compile_cond(c: &Cond) -> ConditionGroup {
+/// `Operator::from_str` on one of the spellings it documents (`alt` picks the second one where there are two)
+fn operator_from_str(op: &str, alt: bool) -> Operator {
+    let text = match (op, alt) {
+        ("ge", false) => ">=",
+        ("ge", true) => "gte",
+        ("le", false) => "<=",
+        ("le", true) => "lte",
+        ("eq", false) => "==",
+        ("eq", true) => "eq",
+        ("ne", false) => "!=",
+        ("ne", true) => "ne",
+        ("gt", false) => ">",
+        ("gt", true) => "gt",
+        ("lt", false) => "<",
+        ("lt", true) => "lt",
+        ("co", _) => "contains",
+        ("nc", _) => "not_contains",
+        ("sw", false) => "startsWith",
+        ("sw", true) => "starts_with",
+        ("ew", false) => "endsWith",
+        ("ew", true) => "ends_with",
+        ("ma", _) => "matches",
+        _ => "in",
+    };
+    Operator::from_str(text).unwrap_or_else(|| panic!("Operator::from_str({:?}) is None", text))
+}
+fn compile_cond(c: &Cond, builders: bool) -> ConditionGroup {
     match c {
-        Cond::And(a, b) => ConditionGroup::and(compile_cond(a), compile_cond(b)),
-        Cond::Or(a, b) => ConditionGroup::or(compile_cond(a), compile_cond(b)),
-        Cond::Not(a) => ConditionGroup::not(compile_cond(a)),
-        Cond::Field(n, op, r) => ConditionGroup::single(Condition::new(n.clone(), operator(op), compile_rhs(r))),
+        Cond::And(a, b) => ConditionGroup::and(compile_cond(a, builders), compile_cond(b, builders)),
+        Cond::Or(a, b) => ConditionGroup::or(compile_cond(a, builders), compile_cond(b, builders)),
+        Cond::Not(a) => ConditionGroup::not(compile_cond(a, builders)),
+        Cond::Field(n, op, r) => {
+            let o = if builders { operator_from_str(op, n.len() % 2 == 1) } else { operator(op) };
+            ConditionGroup::single(Condition::new(n.clone(), o, compile_rhs(r, builders)))
+        }
         Cond::Arith(l, op, r) => {
             let rt = match r {
                 ARhs::Num(t) => t.clone(),
@@ -483,16 +575,22 @@ fn compile_cond(c: &Cond) -> ConditionGroup {
         }
     }
 }
-fn compile_rule(i: usize, r: &SRule) -> Rule {
+fn compile_rule(i: usize, r: &SRule, builders: bool) -> Rule {
     let acts = r
         .acts
         .iter()
         .map(|a| match a {
-            Act::Set(f, r) => ActionType::Set { field: f.clone(), value: compile_rhs(r) },
-            Act::Append(f, r) => ActionType::Append { field: f.clone(), value: compile_rhs(r) },
+            Act::Set(f, r) => ActionType::Set { field: f.clone(), value: compile_rhs(r, builders) },
+            Act::Append(f, r) => ActionType::Append { field: f.clone(), value: compile_rhs(r, builders) },
         })
         .collect();
-    Rule::new(format!("R{}", i), compile_cond(&r.cond), acts)
+    let rule = Rule::new(format!("R{}", i), compile_cond(&r.cond, builders), acts);
+    if builders {
+        // builders with the values a fresh rule already has: the same rule
+        rule.with_description(format!("rule {}", i)).with_priority(0).with_salience(0).with_no_loop(false).with_lock_on_active(false)
+    } else {
+        rule
+    }
 }
 
 // GRL text of the same rule (only produced for cases flagged G1 by the generator)
@@ -540,47 +638,146 @@ fn grl_rule(i: usize, r: &SRule) -> String {
 }
 
 // ------------------------------------------------------------------ exec
+fn to_json(v: &Value) -> Option<serde_json::Value> {
+    Some(match v {
+        Value::String(s) => serde_json::Value::String(s.clone()),
+        Value::Integer(i) => serde_json::Value::from(*i),
+        Value::Number(x) => serde_json::Value::Number(serde_json::Number::from_f64(*x)?),
+        Value::Boolean(b) => serde_json::Value::Bool(*b),
+        Value::Null => serde_json::Value::Null,
+        Value::Expression(_) => return None,
+        Value::Array(xs) => serde_json::Value::Array(xs.iter().map(to_json).collect::<Option<Vec<_>>>()?),
+        Value::Object(m) => {
+            let mut o = serde_json::Map::new();
+            for (k, x) in m {
+                o.insert(k.clone(), to_json(x)?);
+            }
+            serde_json::Value::Object(o)
+        }
+    })
+}
+/// `Facts::add_value`, or — variant 8 — `Facts::add` of the JSON form of the value when it has one (no NaN / infinity /
+/// Expression inside; JSON keeps integer and float numerals apart, so the stored value must be the same)
+fn put(f: &Facts, k: &str, v: &Value, serde: bool) {
+    if serde {
+        if let Some(j) = to_json(v) {
+            f.add(k, j).unwrap();
+            return;
+        }
+    }
+    f.add_value(k, v.clone()).unwrap();
+}
 fn mk_facts(c: &Case) -> Facts {
     let f = Facts::new();
     for (k, v) in &c.facts {
-        f.add_value(k, v.clone()).unwrap();
+        put(&f, k, v, c.variant & V_SERDE != 0);
     }
     f
 }
-fn mk_engine(rules: Vec<Rule>, max_cycles: usize) -> Option<RustRuleEngine> {
+enum Prog {
+    Rules(Vec<Rule>),
+    Text(String),
+}
+fn mk_engine(prog: Prog, c: &Case) -> Option<RustRuleEngine> {
     let kb = KnowledgeBase::new("c01");
-    for r in rules {
-        kb.add_rule(r).ok()?;
+    let late = c.variant & V_LATE != 0;
+    let mut pending: Vec<Rule> = Vec::new();
+    let mut pending_text: Option<String> = None;
+    match prog {
+        Prog::Rules(rules) => {
+            let n = rules.len();
+            for (i, r) in rules.into_iter().enumerate() {
+                if late && i >= n / 2 {
+                    pending.push(r);
+                } else {
+                    kb.add_rule(r).ok()?;
+                }
+            }
+        }
+        Prog::Text(t) => {
+            if late {
+                pending_text = Some(t);
+            } else {
+                kb.add_rules_from_grl(&t).ok()?;
+            }
+        }
     }
-    let cfg = EngineConfig { max_cycles, timeout: None, enable_stats: false, debug_mode: false };
-    Some(RustRuleEngine::with_config(kb, cfg))
+    let mut eng = if c.variant & V_NEW != 0 {
+        RustRuleEngine::new(kb)
+    } else {
+        let cfg = EngineConfig { max_cycles: c.max_cycles, timeout: None, enable_stats: false, debug_mode: false };
+        RustRuleEngine::with_config(kb, cfg)
+    };
+    for (i, r) in pending.into_iter().enumerate() {
+        if i % 2 == 0 {
+            eng.knowledge_base().add_rule(r).ok()?;
+        } else {
+            eng.knowledge_base_mut().add_rule(r).ok()?;
+        }
+    }
+    if let Some(t) = pending_text {
+        eng.knowledge_base().add_rules_from_grl(&t).ok()?;
+    }
+    if c.variant & V_ANALYTICS != 0 {
+        eng.enable_analytics(rust_rule_engine::engine::analytics::RuleAnalytics::new(Default::default()));
+    }
+    Some(eng)
 }
 fn rule_idx(name: &str) -> String {
     name.trim_start_matches('R').to_string()
 }
 /// one engine object, one execute call per phase (the caller changes facts in between); `tag RUN` per call
-fn run(tag: &str, rules: Vec<Rule>, c: &Case, callback: bool) -> String {
-    let Some(mut eng) = mk_engine(rules, c.max_cycles) else { return format!("{} badkb", tag) };
+fn run(tag: &str, prog: Prog, c: &Case, callback: bool) -> String {
+    let Some(mut eng) = mk_engine(prog, c) else { return format!("{} badkb", tag) };
+    let serde = c.variant & V_SERDE != 0;
     let mut facts = mk_facts(c);
     let mut out: Vec<String> = Vec::new();
     for call in 0..=c.phases.len() {
         if call > 0 {
             let ph = &c.phases[call - 1];
-            if ph.fresh {
-                let f2 = Facts::new();
-                let all = facts.get_all_facts();
-                let mut ks: Vec<&String> = all.keys().collect();
-                ks.sort();
-                for k in ks {
-                    f2.add_value(k, all[k].clone()).unwrap();
+            match ph.kind {
+                'w' => {
+                    let f2 = Facts::new();
+                    let all = facts.get_all_facts();
+                    let mut ks: Vec<&String> = all.keys().collect();
+                    ks.sort();
+                    for k in ks {
+                        f2.add_value(k, all[k].clone()).unwrap();
+                    }
+                    facts = f2;
                 }
-                facts = f2;
+                'm' => {
+                    let f2 = Facts::new();
+                    f2.merge(&facts);
+                    facts = f2;
+                }
+                's' => {
+                    let f2 = Facts::new();
+                    f2.add_value("stale", Value::Boolean(true)).unwrap(); // restore replaces the content
+                    f2.restore(facts.snapshot());
+                    facts = f2;
+                }
+                'x' => facts = Facts::from_context(facts.to_context()),
+                _ => {}
             }
-            for (k, v) in &ph.sets {
-                facts.add_value(k, v.clone()).unwrap();
+            for op in &ph.ops {
+                match op {
+                    POp::Add(k, v) => put(&facts, k, v, serde),
+                    POp::Set(k, v) => facts.set(k, v.clone()),
+                    POp::SetNested(k, v) => {
+                        let _ = facts.set_nested(k, v.clone());
+                    }
+                    POp::Remove(k) => {
+                        facts.remove(k);
+                    }
+                    POp::Clear => facts.clear(),
+                }
             }
         }
         let firings: RefCell<Vec<String>> = RefCell::new(Vec::new());
+        if c.variant & V_UNDO != 0 {
+            facts.begin_undo_frame();
+        }
         let res = std::panic::catch_unwind(AssertUnwindSafe(|| {
             if callback {
                 eng.execute_with_callback(&facts, |name, f| {
@@ -590,6 +787,9 @@ fn run(tag: &str, rules: Vec<Rule>, c: &Case, callback: bool) -> String {
                 eng.execute(&facts) // = execute_at_time(facts, Utc::now())
             }
         }));
+        if c.variant & V_UNDO != 0 {
+            facts.commit_undo_frame();
+        }
         let (st, ev, fi) = match res {
             Ok(Ok(r)) => ("ok", r.rules_evaluated, r.rules_fired),
             Ok(Err(_)) => ("err", 0, 0),
@@ -612,17 +812,30 @@ fn run(tag: &str, rules: Vec<Rule>, c: &Case, callback: bool) -> String {
 }
 fn exec(case: &str) -> String {
     let Some(c) = parse_case(case) else { return "bad-case".into() };
-    let prog = || c.rules.iter().enumerate().map(|(i, r)| compile_rule(i, r)).collect::<Vec<_>>();
+    let builders = c.variant & V_BUILDERS != 0;
+    let prog = || Prog::Rules(c.rules.iter().enumerate().map(|(i, r)| compile_rule(i, r, builders)).collect::<Vec<_>>());
     let mut s = format!("{} {}", run("C", prog(), &c, true), run("X", prog(), &c, false));
     if c.grl {
-        let mut rules = Vec::new();
-        for (i, r) in c.rules.iter().enumerate() {
-            match GRLParser::parse_rule(&grl_rule(i, r)) {
-                Ok(r) => rules.push(r),
+        let texts: Vec<String> = c.rules.iter().enumerate().map(|(i, r)| grl_rule(i, r)).collect();
+        let g = if c.variant & V_WHOLE != 0 && c.variant & V_LATE != 0 {
+            // the whole text handed to KnowledgeBase::add_rules_from_grl after the engine was built
+            Prog::Text(texts.join("\n"))
+        } else if c.variant & V_WHOLE != 0 {
+            match GRLParser::parse_rules(&texts.join("\n")) {
+                Ok(rs) => Prog::Rules(rs),
                 Err(_) => return format!("{} G parse-error", s),
             }
-        }
-        s.push_str(&format!(" {}", run("G", rules, &c, true)));
+        } else {
+            let mut rules = Vec::new();
+            for t in &texts {
+                match GRLParser::parse_rule(t) {
+                    Ok(r) => rules.push(r),
+                    Err(_) => return format!("{} G parse-error", s),
+                }
+            }
+            Prog::Rules(rules)
+        };
+        s.push_str(&format!(" {}", run("G", g, &c, true)));
     }
     s
 }
@@ -1074,7 +1287,7 @@ fn gen_case(rng: &mut Rng) -> Case {
         let acts = (0..nacts).map(|_| g.gen_act()).collect();
         rules.push(SRule { cond, acts });
     }
-    Case { grl, facts: g.facts.clone(), rules, max_cycles: 1, phases: vec![] }
+    Case { grl, facts: g.facts.clone(), rules, max_cycles: 1, variant: 0, phases: vec![] }
 }
 
 // ------------------------------------------------------------------ generator: dedicated families
@@ -1249,7 +1462,7 @@ fn gen_long_in(rng: &mut Rng) -> Case {
         let cond = wrap(rng, leaf, other);
         rules.push(SRule { cond, acts: vec![Act::Set(format!("hit{}", i), SRhs::Lit(Value::Boolean(true)))] });
     }
-    Case { grl, facts, rules, max_cycles: 1, phases: vec![] }
+    Case { grl, facts, rules, max_cycles: 1, variant: 0, phases: vec![] }
 }
 
 /// FAMILY arithmetic text WITHOUT blanks around operators (`o.price-5`, `rate*2+e-1`): names ending in e/E (and others
@@ -1345,7 +1558,7 @@ fn gen_tight(rng: &mut Rng) -> Case {
         };
         rules.push(SRule { cond, acts: vec![act] });
     }
-    Case { grl, facts, rules, max_cycles: 1, phases: vec![] }
+    Case { grl, facts, rules, max_cycles: 1, variant: 0, phases: vec![] }
 }
 
 /// FAMILY one engine object, several cycles and several execute calls, thresholds that MOVE: conditions compare a
@@ -1439,9 +1652,9 @@ fn gen_moving(rng: &mut Rng) -> Case {
                 _ => sets.push(("o".to_string(), obj(vec![("qty", if rng.chance(1, 2) { big(rng) } else { small(rng) }), ("tier", Value::Integer(0)), ("flag", Value::Boolean(false))]))),
             }
         }
-        phases.push(Phase { fresh: rng.chance(1, 3), sets });
+        phases.push(Phase { kind: if rng.chance(1, 3) { 'w' } else { 'p' }, ops: sets.into_iter().map(|(k, v)| POp::Add(k, v)).collect() });
     }
-    Case { grl, facts, rules, max_cycles, phases }
+    Case { grl, facts, rules, max_cycles, variant: 0, phases }
 }
 
 /// FAMILY ordinary generated case, run for several cycles and called again after the caller replaced some facts
@@ -1470,7 +1683,88 @@ fn gen_again(rng: &mut Rng) -> Case {
                 sets.push((k, v));
             }
         }
-        c.phases.push(Phase { fresh: rng.chance(1, 3), sets });
+        c.phases.push(Phase { kind: if rng.chance(1, 3) { 'w' } else { 'p' }, ops: sets.into_iter().map(|(k, v)| POp::Add(k, v)).collect() });
+    }
+    c
+}
+
+/// FAMILY reach: the same engine / rules / facts obtained through the API's OTHER doors, and a caller who edits the
+/// store between the calls. A base case of the ordinary, again or moving-threshold generator is decorated with
+/// (a) variant bits (engine from `RustRuleEngine::new` — default configuration, 100 cycles —, rules added after construction
+/// through `knowledge_base()` / `knowledge_base_mut()` / `add_rules_from_grl`, analytics on, facts through `Facts::add`
+/// (serde), an undo frame open around each call, whole-text `parse_rules`, `Operator::from_str` / `Value::from` / inert
+/// `with_*` builders) and (b) one to three more execute calls before which the caller removes facts (present, absent, the
+/// object a nested condition reads), clears the store and rebuilds part of it, writes through `Facts::set` /
+/// `Facts::set_nested` (existing path, missing root, non-object on the way) or hands the content over in a new Facts
+/// object (add_value, merge, snapshot/restore, to_context/from_context).
+fn gen_reach(rng: &mut Rng) -> Case {
+    let mut c = match rng.below(5) {
+        0 | 1 => gen_case(rng),
+        2 => gen_again(rng),
+        _ => gen_moving(rng),
+    };
+    let special = !c.grl;
+    let mut v = 0u32;
+    for b in [V_LATE, V_ANALYTICS, V_SERDE, V_UNDO, V_WHOLE, V_BUILDERS] {
+        if rng.chance(1, 3) {
+            v |= b;
+        }
+    }
+    // default configuration = up to 100 cycles: only for small rule sets whose store does not grow
+    let grows = c.rules.iter().any(|r| r.acts.iter().any(|a| matches!(a, Act::Append(..))));
+    if c.rules.len() <= 2 && !grows && rng.chance(1, 4) {
+        v |= V_NEW;
+        c.max_cycles = 1;
+    } else if c.max_cycles == 1 && rng.chance(1, 2) {
+        c.max_cycles = *rng.pick(&[2usize, 3]);
+    }
+    if v == 0 {
+        v = *rng.pick(&[V_LATE, V_SERDE, V_BUILDERS, V_UNDO]);
+    }
+    c.variant = v;
+    // the caller's edits
+    let extra = if c.phases.is_empty() { 1 + rng.below(3) as usize } else { rng.below(2) as usize };
+    let tops: Vec<String> = c.facts.iter().map(|(k, _)| k.clone()).collect();
+    for _ in 0..extra {
+        let mut ops = Vec::new();
+        for _ in 0..1 + rng.below(3) {
+            match rng.below(10) {
+                0 | 1 | 2 if !tops.is_empty() => ops.push(POp::Remove(rng.pick(&tops).clone())),
+                3 => ops.push(POp::Remove(rng.pick(&["zz", "o", "cfg", "o.x", "u.v"]).to_string())),
+                4 => {
+                    // reset and rebuild part of the store
+                    ops.push(POp::Clear);
+                    for (k, val) in &c.facts {
+                        if rng.chance(1, 2) {
+                            ops.push(POp::Add(k.clone(), val.clone()));
+                        }
+                    }
+                }
+                5 | 6 => {
+                    let path = match rng.below(4) {
+                        0 => rng.pick(NESTED).to_string(),
+                        1 => rng.pick(&["o.qty", "o.tier", "cfg.floor", "cfg.step", "cfg.base"]).to_string(),
+                        2 => rng.pick(&["miss.f", "a.sub", "o.nolink.f", "o.x.deep", "q.r"]).to_string(),
+                        _ => rng.pick(&["q", "floor", "step", "base", "a", "n1"]).to_string(),
+                    };
+                    ops.push(POp::SetNested(path, gen_scalar(rng, special)));
+                }
+                7 => {
+                    let k = if tops.is_empty() || rng.chance(1, 3) { rng.pick(FLAT).to_string() } else { rng.pick(&tops).clone() };
+                    ops.push(POp::Set(k, gen_value(rng, special)));
+                }
+                _ => {
+                    let k = if tops.is_empty() || rng.chance(1, 3) { rng.pick(FLAT).to_string() } else { rng.pick(&tops).clone() };
+                    let val = match c.facts.iter().find(|(k2, _)| *k2 == k) {
+                        Some((_, Value::Integer(i))) => Value::Integer(i + *rng.pick(&[-20i64, -5, -1, 1, 5, 20])),
+                        Some((_, old @ Value::Object(_))) if rng.chance(1, 2) => old.clone(),
+                        _ => gen_value(rng, special),
+                    };
+                    ops.push(POp::Add(k, val));
+                }
+            }
+        }
+        c.phases.push(Phase { kind: *rng.pick(&['p', 'p', 'w', 'm', 's', 'x']), ops });
     }
     c
 }
@@ -1485,6 +1779,10 @@ fn gen(rng: &mut Rng, n: usize, _tier: &str) -> Vec<String> {
         out.push(ser_case(&gen_moving(rng)));
         out.push(ser_case(&gen_moving(rng)));
         out.push(ser_case(&gen_again(rng)));
+    }
+    // the API's other doors and caller-side edits (see gen_reach): n/10 cases, drawn after everything else
+    for _ in 0..n / 10 {
+        out.push(ser_case(&gen_reach(rng)));
     }
     out
 }
@@ -1544,15 +1842,20 @@ fn shrink(case: &str) -> Vec<String> {
         out.push(Case { phases: ps, ..c.clone() });
     }
     for i in 0..c.phases.len() {
-        for sets in shrink_list(&c.phases[i].sets) {
+        for ops in shrink_list(&c.phases[i].ops) {
             let mut d = c.clone();
-            d.phases[i].sets = sets;
+            d.phases[i].ops = ops;
             out.push(d);
         }
-        if c.phases[i].fresh {
+        if c.phases[i].kind != 'p' {
             let mut d = c.clone();
-            d.phases[i].fresh = false;
+            d.phases[i].kind = 'p';
             out.push(d);
+        }
+    }
+    for b in 0..8 {
+        if c.variant & (1 << b) != 0 {
+            out.push(Case { variant: c.variant & !(1 << b), ..c.clone() });
         }
     }
     if c.max_cycles > 1 {
